@@ -16,6 +16,11 @@ package main
 //   aliasReturns = `return e` with depth(e) ≥ 1 (a call of a function of fp.go counts only if that function itself
 //               returns parameter-derived storage — monotone fixpoint)
 //
+//   allocOrigins = for helpers returning a slice/map: the set of origins of every returned expression, following
+//               local assignments: `make` / `map` (make(map…), map literal) / `append` / `nil` (`var x []T`, nil,
+//               zero-capacity view) / `lit` — allocation sites —, `param` (parameter-derived storage), `unknown`;
+//               a call of an fp.go function contributes that function's origins; otherwise `scalar`
+//
 // Output: `Gen/EffectsC03.lean`, `def effectsC03 : List (String × List String)` — one entry per helper named
 // in property C03 (a helper that no longer exists gets the effect "missing").  `Props/C03.lean` closes it
 // with `C03_effects … by decide`.
@@ -37,6 +42,7 @@ var c03Helpers = []string{"Map", "MapIndexed", "Filter", "Reject", "Reduce", "Co
 	"IsEqual", "IsEqualMap", "IsDistinct", "SliceToMap", "DuplicateSlice", "DuplicateMap"}
 
 type c03Fn struct {
+	origins []string // where the returned slice/map values come from: make, append, nil, lit, map, param, scalar, unknown
 	name    string
 	returns []string          // return statements that hand out parameter-derived storage
 	own     []string          // own destructive operations
@@ -296,6 +302,150 @@ func (w *c03Walker) visit(n ast.Node) {
 	})
 }
 
+// ---- allocation origins of the returned values
+
+type c03Origins struct {
+	w       *c03Walker
+	assigns map[string][]ast.Expr // local name -> right-hand sides assigned to it
+	nilDecl map[string]bool       // `var x []T` / `var x map…` without initialiser
+	fnOrig  map[string][]string   // origins of the in-package functions computed so far
+}
+
+func c03CollectAssigns(body ast.Node) (map[string][]ast.Expr, map[string]bool) {
+	as := map[string][]ast.Expr{}
+	nd := map[string]bool{}
+	ast.Inspect(body, func(n ast.Node) bool {
+		switch x := n.(type) {
+		case *ast.AssignStmt:
+			if len(x.Lhs) == len(x.Rhs) {
+				for i, l := range x.Lhs {
+					if id, ok := l.(*ast.Ident); ok {
+						as[id.Name] = append(as[id.Name], x.Rhs[i])
+					}
+				}
+			} else if len(x.Rhs) == 1 {
+				for _, l := range x.Lhs {
+					if id, ok := l.(*ast.Ident); ok {
+						as[id.Name] = append(as[id.Name], x.Rhs[0])
+					}
+				}
+			}
+		case *ast.ValueSpec:
+			for i, nm := range x.Names {
+				if i < len(x.Values) {
+					as[nm.Name] = append(as[nm.Name], x.Values[i])
+				} else if x.Type != nil && c03TypeDepth(x.Type) > 0 {
+					nd[nm.Name] = true
+				}
+			}
+		}
+		return true
+	})
+	return as, nd
+}
+
+func (o *c03Origins) of(e ast.Expr, seen map[string]bool) []string {
+	switch x := e.(type) {
+	case *ast.ParenExpr:
+		return o.of(x.X, seen)
+	case *ast.Ident:
+		var res []string
+		if x.Name == "nil" {
+			return []string{"nil"}
+		}
+		if seen[x.Name] {
+			return nil
+		}
+		seen[x.Name] = true
+		if o.nilDecl[x.Name] {
+			res = append(res, "nil")
+		}
+		for _, rhs := range o.assigns[x.Name] {
+			res = append(res, o.of(rhs, seen)...)
+		}
+		if o.w.env[x.Name] >= 1 {
+			res = append(res, "param")
+		}
+		if len(res) == 0 {
+			res = []string{"unknown"}
+		}
+		return res
+	case *ast.SliceExpr:
+		if x.Slice3 && o.w.depth(x) == 0 && o.w.depth(x.X) >= 1 {
+			return []string{"nil"} // zero-capacity view of a parameter: appending to it allocates
+		}
+		return o.of(x.X, seen)
+	case *ast.CompositeLit:
+		res := []string{"lit"}
+		if _, ok := x.Type.(*ast.MapType); ok {
+			res = []string{"map"}
+		}
+		if o.w.depth(x) >= 1 {
+			res = append(res, "param")
+		}
+		return res
+	case *ast.CallExpr:
+		name := sel(x.Fun)
+		switch name {
+		case "make":
+			if len(x.Args) > 0 {
+				if _, ok := x.Args[0].(*ast.MapType); ok {
+					return []string{"map"}
+				}
+			}
+			return []string{"make"}
+		case "append":
+			res := []string{"append"}
+			if len(x.Args) > 0 {
+				res = append(res, o.of(x.Args[0], seen)...)
+			}
+			return res
+		}
+		if o.w.pkgFns[name] {
+			passes := false
+			for _, a := range x.Args {
+				passes = passes || o.w.depth(a) >= 1
+			}
+			var res []string
+			for _, og := range o.fnOrig[name] {
+				if og == "param" && !passes {
+					continue
+				}
+				res = append(res, og)
+			}
+			if len(res) == 0 {
+				res = []string{"unknown"}
+			}
+			return res
+		}
+		return []string{"unknown"}
+	}
+	return []string{"unknown"}
+}
+
+func c03ReturnsStorage(fd *ast.FuncDecl) bool {
+	if fd.Type.Results == nil {
+		return false
+	}
+	for _, r := range fd.Type.Results.List {
+		if c03TypeDepth(r.Type) > 0 {
+			return true
+		}
+	}
+	return false
+}
+
+func c03Uniq(l []string) []string {
+	sort.Strings(l)
+	var r []string
+	for i, x := range l {
+		if i == 0 || x != l[i-1] {
+			r = append(r, x)
+		}
+	}
+	return r
+}
+
 func genEffectsC03(repo string) (string, error) {
 	fset := token.NewFileSet()
 	f, err := parser.ParseFile(fset, filepath.Join(repo, "fp.go"), nil, 0)
@@ -311,6 +461,7 @@ func genEffectsC03(repo string) (string, error) {
 		}
 	}
 	fns := map[string]*c03Fn{}
+	walkers := map[string]*c03Walker{}
 	aliasRet := map[string]bool{}
 	for round := 0; round < 6; round++ { // which functions return parameter-derived storage: monotone fixpoint
 		changed := false
@@ -330,6 +481,7 @@ func genEffectsC03(repo string) (string, error) {
 				w.visit(fd.Body)
 			}
 			fns[fn.name] = fn
+			walkers[fn.name] = w
 			if len(fn.returns) > 0 && !aliasRet[fn.name] {
 				aliasRet[fn.name] = true
 				changed = true
@@ -337,6 +489,41 @@ func genEffectsC03(repo string) (string, error) {
 		}
 		if !changed {
 			break
+		}
+	}
+	// allocation origins of the returned values (callees first: iterate to a fixpoint)
+	fnOrig := map[string][]string{}
+	for round := 0; round < 6; round++ {
+		for _, fd := range decls {
+			name := fd.Name.Name
+			if !c03ReturnsStorage(fd) {
+				fnOrig[name] = []string{"scalar"}
+				continue
+			}
+			as, nd := c03CollectAssigns(fd.Body)
+			o := &c03Origins{w: walkers[name], assigns: as, nilDecl: nd, fnOrig: fnOrig}
+			var res []string
+			var visit func(n ast.Node)
+			visit = func(n ast.Node) {
+				ast.Inspect(n, func(n ast.Node) bool {
+					switch x := n.(type) {
+					case *ast.FuncLit:
+						return false
+					case *ast.ReturnStmt:
+						for _, r := range x.Results {
+							res = append(res, o.of(r, map[string]bool{})...)
+						}
+					}
+					return true
+				})
+			}
+			visit(fd.Body)
+			fnOrig[name] = c03Uniq(res)
+		}
+	}
+	for name, og := range fnOrig {
+		if fns[name] != nil {
+			fns[name].origins = og
 		}
 	}
 	// transitive closure over in-package calls that receive storage
@@ -388,6 +575,24 @@ func genEffectsC03(repo string) (string, error) {
 		effs := []string{"missing"}
 		if fns[h] != nil {
 			effs = fns[h].returns
+		}
+		q := make([]string, len(effs))
+		for j, e := range effs {
+			q[j] = fmt.Sprintf("%q", e)
+		}
+		sep := ","
+		if i == len(c03Helpers)-1 {
+			sep = ""
+		}
+		fmt.Fprintf(&b, "  (%q, [%s])%s\n", h, strings.Join(q, ", "), sep)
+	}
+	b.WriteString("]\n\n")
+	b.WriteString("/-- per C03 helper: where the returned slice/map values come from (make, append, nil, lit, map = allocation sites; param = parameter storage; scalar; unknown) -/\n")
+	b.WriteString("def allocOriginsC03 : List (String × List String) := [\n")
+	for i, h := range c03Helpers {
+		effs := []string{"missing"}
+		if fns[h] != nil {
+			effs = fns[h].origins
 		}
 		q := make([]string, len(effs))
 		for j, e := range effs {
